@@ -51,7 +51,7 @@ Section P.
   Notation g_resp := (g_resp rc rm fo).
 
   Lemma visit_spec st s v :
-    sv_guard (md_of st) s v = true ->
+    sv_guard (md_of st) (st_usenum st) s v = true ->
     visit rc rm fo st s v <> Panic "" /\
     (forall w, visit rc rm fo st s v <> Panic w) /\
     accepts (visit rc rm fo st s v) = satb rc rm fo (md_of st) s v.
@@ -73,9 +73,9 @@ Section P.
     destruct (h_schema h) as [s|]; [|discriminate].
     destruct (h_found h); cbn [negb orb] in *.
     - destruct (h_decoded h) as [v|]; [|split; reflexivity].
-      change (md_hdr o) with (md_of (resp_settings o false)) in G |- *.
-      destruct (visit_spec _ s v G) as (_ & Hp & Ha).
-      destruct (visit rc rm fo (resp_settings o false) s v) eqn:E; cbn in *.
+      change (md_hdr o) with (md_of (resp_settings o false)).
+      destruct (visit_spec (resp_settings o false) s v G) as (_ & Hp & Ha).
+      destruct (visit rc rm fo (resp_settings o false) s v) eqn:E; try rewrite E in Ha; try rewrite E in Hav; cbn in *.
       + split; [reflexivity|exact Ha].
       + split; [reflexivity|exact Ha].
       + exfalso. now apply (Hp w).
@@ -130,9 +130,9 @@ Section P.
     unfold g_media in Gm.
     destruct (m_schema m) as [s|]; [|split; reflexivity].
     destruct body as [v|]; [|split; reflexivity].
-    change (md_resp o) with (md_of (resp_settings o true)) in Gm |- *.
-    destruct (visit_spec _ s v Gm) as (_ & Hpv & Hav).
-    destruct (visit rc rm fo (resp_settings o true) s v) eqn:E; cbn in *.
+    change (md_resp o) with (md_of (resp_settings o true)).
+    destruct (visit_spec (resp_settings o true) s v Gm) as (_ & Hpv & Hav).
+    destruct (visit rc rm fo (resp_settings o true) s v) eqn:E; try rewrite E in Ha; try rewrite E in Hav; cbn in *.
     - split; [reflexivity|exact Hav].
     - split; [reflexivity|exact Hav].
     - exfalso. now apply (Hpv w).
